@@ -63,7 +63,7 @@ def c07(res):
     t = res.tier
     mc_head(res, "language-resp", invs=["InvLanguage"], kinds='{"resp"}', L=fam(t, "2", "3"), cfgs=fam(t, "{0, 2}", "{}"),
             alpha=ALPHA17 if t == "quick" else ALPHA11)
-    for f in fam(t, ["byte_q", "ext_q", "lane_q", "len_q", "code_q", "versions"], ["byte_t", "ext_t", "ext17_t", "lane_t", "len_t", "code_t", "versions"]):
+    for f in fam(t, ["byte_q", "ext_q", "lane_q", "len_q", "code_q", "versions", "reasons"], ["byte_t", "ext_t", "ext17_t", "lane_t", "len_t", "code_t", "versions", "reasons"]):
         replay_step(res, f, kinds=K_RESP, modes="base")
     if t == "thorough":
         replay_step(res, "byte_t", kinds=K_RESP, modes="base", profile="dbgchk")
@@ -111,7 +111,7 @@ def c02(res):
     t = res.tier
     mc_head(res, "streaming", invs=["InvPast", "InvConsumed"], props=["PropAbsorbing", "PropFieldsMonotone", "PropHeadersAppendOnly"],
             L=fam(t, "1", "2"), caps="{0, 1, 2, 100000}")
-    for f in fam(t, ["byte_q", "ext_q", "chunk_q", "methods", "versions"], ["byte_t", "ext_t", "chunk_t", "lines_t", "methods", "versions"]):
+    for f in fam(t, ["byte_q", "ext_q", "chunk_q", "methods", "versions", "reasons"], ["byte_t", "ext_t", "chunk_t", "lines_t", "methods", "versions", "reasons"]):
         replay_step(res, f, modes="extend")
     feed_traces(res, fam(t, 250000, 3000000), kinds="0,1,2,3")
 
@@ -119,7 +119,7 @@ def c02(res):
 def c03(res):
     t = res.tier
     mc_head(res, "framing", invs=["InvFraming"], L=fam(t, "2", "3"), caps=fam(t, "{1, 100000}", "{0, 1, 2, 100000}"))
-    for f in fam(t, ["byte_q", "ext_q", "lane_q", "lines_q", "chunk_q"], ["byte_t", "ext_t", "lane_t", "lines_t", "chunk_t", "hdrext_t"]):
+    for f in fam(t, ["byte_q", "ext_q", "lane_q", "lines_q", "chunk_q", "methods", "versions"], ["byte_t", "ext_t", "lane_t", "lines_t", "chunk_t", "hdrext_t", "methods", "versions"]):
         replay_step(res, f, modes="base")
     feed_traces(res, fam(t, 250000, 3000000), kinds="0,1,2,3")
 
@@ -127,8 +127,8 @@ def c03(res):
 def c04(res):
     t = res.tier
     mc_head(res, "spans", invs=["InvSpans", "InvPast"], L=fam(t, "2", "3"))
-    for f in fam(t, ["byte_q", "ext_q", "lane_q", "len_q"], ["byte_t", "ext_t", "lane_t", "len_t", "lines_t"]):
-        replay_step(res, f, kinds=HEADS, modes="entries" if f.startswith("ext") else "base")
+    for f in fam(t, ["byte_q", "ext_q", "lane_q", "len_q", "methods", "versions", "code_q"], ["byte_t", "ext_t", "lane_t", "len_t", "lines_t", "methods", "versions", "code_q"]):
+        replay_step(res, f, kinds=HEADS, modes="entries" if f.startswith("ext") or f in ("methods", "versions") else "base")
     feed_traces(res, fam(t, 250000, 3000000), kinds="0,1,2")
     client_programs(res, fam(t, 600, 6000))
     op_traces(res, fam(t, 3000, 30000))
@@ -137,7 +137,7 @@ def c04(res):
 def c05(res):
     t = res.tier
     mc_head(res, "hygiene", invs=["InvHygiene"], L=fam(t, "2", "3"))
-    for f in fam(t, ["byte_q", "lane_q", "ext_q"], ["byte_t", "lane_t", "ext_t", "ext17_t", "hdrext_t"]):
+    for f in fam(t, ["byte_q", "lane_q", "ext_q", "methods", "versions", "reasons"], ["byte_t", "lane_t", "ext_t", "ext17_t", "hdrext_t", "methods", "versions", "reasons"]):
         replay_step(res, f, kinds=HEADS, modes="base")
     feed_traces(res, fam(t, 250000, 3000000), kinds="0,1,2")
 
@@ -162,7 +162,7 @@ def c15(res):
     t = res.tier
     mc_head(res, "language-allcfgs", invs=["InvLanguage"], kinds='{"req", "resp"}', L="1")
     multi(res, ["Conservative"], fam(t, "4", "6"))
-    for f in fam(t, ["ext_q", "lines_q"], ["byte_q", "ext_t", "lines_t"]):
+    for f in fam(t, ["ext_q", "lines_q", "methods", "versions", "code_q", "reasons"], ["byte_q", "ext_t", "lines_t", "methods", "versions", "code_q", "reasons"]):
         replay_step(res, f, kinds="0,1", modes="cfgs")
 
 
@@ -170,7 +170,7 @@ def c16(res):
     t = res.tier
     mc_head(res, "language-kinds", invs=["InvLanguage"], L="1")
     multi(res, ["EntryKindsAgree"], fam(t, "4", "6"), kinds=("req",))
-    for f in fam(t, ["byte_q", "ext_q", "lines_q"], ["byte_t", "ext_t", "lines_t", "lane_t"]):
+    for f in fam(t, ["byte_q", "ext_q", "lines_q", "methods", "versions"], ["byte_t", "ext_t", "lines_t", "lane_t", "methods", "versions"]):
         replay_step(res, f, kinds=HEADS, modes="entries,embed")
 
 
@@ -203,7 +203,7 @@ def c19(res):
     t = res.tier
     mc_head(res, "outcome-coverage", invs=["InvConsumed"], L="1", caps="{0, 1, 2, 100000}")
     nostd_link(res)
-    for f in fam(t, ["byte_q", "lines_q", "chunk_q"], ["byte_t", "ext_t", "lines_t", "lane_t", "chunk_t"]):
+    for f in fam(t, ["byte_q", "lines_q", "chunk_q", "methods", "versions", "ext_q"], ["byte_t", "ext_t", "lines_t", "lane_t", "chunk_t", "methods", "versions"]):
         replay_step(res, f, modes="entries")
     if res.extra["no_std_link"]["linked"]:
         replay_step(res, "lines_q", modes="entries", variant=VARIANTS["nostd"])
@@ -367,7 +367,7 @@ def c13(res):
     replay_step(res, "len_q", modes="places", baseline=True)
     if t == "thorough":
         replay_step(res, "byte_q", modes="base", baseline=True)
-    for f in ("digits", "chunk_q", "ext_q", "code_q"):
+    for f in ("digits", "chunk_q", "ext_q", "code_q", "methods", "versions"):
         replay_step(res, f, modes="base", baseline=True)
         replay_step(res, f, modes="base", profile="dbgchk", promote=True)
     for b in (1, 2, 3):
@@ -564,6 +564,11 @@ def scan_traces(res, thorough=False, variant=None, label="scan", neon=False):
         if ok:
             continue
         ev = json.loads(open(tf).read().splitlines()[idx - 1])
+        if ev["ev"] == "scanw":
+            msg = ("scanner %s, class %s: wrong stop offset on the bytes %s followed by one of the 256 byte values: runs %s"
+                   % (names.get(ev["backend"]), ["target", "header value", "header name"][ev["cls"]], ev["pre"], ev["runs"]))
+            res.violation(msg, {"kind": "scan", "event": ev, "variant": variant, "key": "scanw:%d:%d:%s" % (ev["backend"], ev["cls"], ev["pre"])})
+            continue
         msg = ("scanner %s, class %s: wrong stop offset for a buffer of length %d with byte position %d (fill 0x%02x, align %s): runs %s"
                % (names.get(ev["backend"]), ["target", "header value", "header name"][ev["cls"]], ev["n"], ev["p"], ev["fill"], ev["align"], ev["runs"]))
         res.violation(msg, {"kind": "scan", "event": ev, "variant": variant, "key": "scan:%d:%d:%d:%d" % (ev["backend"], ev["cls"], ev["n"], ev["p"])})
@@ -692,9 +697,34 @@ def client_programs(res, count):
     shutil.rmtree(wd, ignore_errors=True)
 
 
+PARSER_CFGS = [
+    # (label, alphabet, kind, option bits, capacity, prefix set)
+    ("req-line", "{10, 13, 32, 47, 71, 69, 84, 80, 79, 83, 72, 49, 46, 1, 200}", "req", 0, 100000, "start"),
+    ("req-line-multispace", "{10, 13, 32, 47, 71, 69, 84, 80, 72, 49, 46, 1, 200}", "req", 1, 100000, "start"),
+    ("status-line", "{10, 13, 32, 72, 84, 80, 47, 49, 46, 48, 50, 9, 1, 200, 65}", "resp", 2, 100000, "start"),
+    ("resp-headers-all-options", "{0, 1, 9, 10, 13, 32, 58, 97, 127, 200}", "resp", 94, 1, "hdr"),
+    ("resp-headers-default", "{0, 1, 9, 10, 13, 32, 58, 97, 127, 200}", "resp", 0, 100000, "hdr"),
+    ("req-headers-options", "{0, 1, 9, 10, 13, 32, 58, 97, 127, 200}", "req", 49, 0, "hdr"),
+    ("header-block", "{0, 1, 9, 10, 13, 32, 58, 97, 127, 200}", "hdrs", 0, 2, "hdr"),
+    ("chunk-size", "{0, 9, 10, 13, 32, 48, 57, 59, 65, 70, 71, 97, 102, 120}", "chunk", 0, 0, "start"),
+]
+
+
+def parser_refinement(res, n, which=None):
+    """Parser.tla (the algorithm at cursor-operation granularity) refines Head.tla, keeps the cursor
+    contract, terminates, and never travels further than the buffer is long"""
+    for label, alpha, kind, bits, cap, pset in PARSER_CFGS:
+        if which and label not in which:
+            continue
+        cfg = ("SPECIFICATION Spec\nCONSTANTS\n  Alpha = %s\n  N = %s\n  PKind = \"%s\"\n  PCfgBits = %d\n  PCap = %d\n  PrefixSet = \"%s\"\n"
+               "INVARIANT Refines CursorInv\nPROPERTY Terminates\nCHECK_DEADLOCK FALSE\n" % (alpha, n, kind, bits, cap, pset))
+        mc_step(res, "parser-" + label, "MCParser", cfg, workers=12, timeout=3000)
+
+
 def c20(res):
     t = res.tier
     mc_step(res, "cursor-contract", "MCCursor", "SPECIFICATION MCSpecC\nCONSTANT MaxLen = %s\nINVARIANT IndInv\nPROPERTY Forward\nCHECK_DEADLOCK FALSE\n" % fam(t, "6", "9"), workers=4)
+    parser_refinement(res, fam(t, "3", "4"), which=fam(t, ("req-line", "resp-headers-all-options", "chunk-size"), None))
     work_traces(res, fam(t, [4096, 65536], [4096, 65536, 1048576]), backends=fam(t, (None,), (None, 2, 3)))
     op_traces(res, fam(t, 4000, 40000), backends=fam(t, (None,), (None, 2, 3)))
 
